@@ -17,6 +17,9 @@ fn main() {
         let idx = args.get(2).and_then(|s| s.parse::<usize>().ok()).unwrap_or(usize::MAX);
         std::process::exit(props::c16::child_first(idx));
     }
+    if args[1] == "__expect" {
+        std::process::exit(props::c16::child_expect());
+    }
     if args[1] == "__stress" {
         let g = |i: usize, d: u64| args.get(i).and_then(|s| s.parse::<u64>().ok()).unwrap_or(d);
         std::process::exit(props::c16::child_stress(g(2, 0), g(3, 4) as usize, g(4, 1000) as usize));
